@@ -18,3 +18,7 @@ func vectorEquivalence(prop string, b *spec.BatchSpec, want *spec.Obs, mem, open
 }
 
 func checkVectorEnvelope(prop, tag string, f *indep.File, want *spec.Obs) *Violation { return nil }
+
+func vectorSegmentCheck(prop string, seg segment.Segment, want *spec.Obs, where string) *Violation {
+	return nil
+}
